@@ -40,6 +40,9 @@ pub struct RefTreeOpts {
     pub context: Option<(String, String, Vec<(String, String)>)>,
     pub context_allows_scripting: bool,
     pub discard_bom: bool,
+    /// fragment case: the context element has a form ancestor (outside the fragment), which becomes the form
+    /// element pointer
+    pub fragment_form: bool,
 }
 
 impl Default for RefTreeOpts {
@@ -51,6 +54,7 @@ impl Default for RefTreeOpts {
             context: None,
             context_allows_scripting: true,
             discard_bom: true,
+            fragment_form: false,
         }
     }
 }
@@ -438,6 +442,15 @@ impl TreeBuilder {
         };
         if let Some((ns, local, attrs)) = &opts.context {
             tb.set_up_fragment_case(ns, local, attrs);
+            if opts.fragment_form {
+                // a form ancestor of the context element: a node outside the fragment's tree, never on the stack
+                if ns == NS_HTML && local == "form" {
+                    tb.form = tb.context;
+                } else {
+                    let f = tb.new_node(Kind::Element(Element { ns: Ns::Html, local: "form".to_string(), attrs: Vec::new(), dup: false, contents: None }));
+                    tb.form = Some(f);
+                }
+            }
         }
         tb
     }
